@@ -242,6 +242,7 @@ impl World {
         match spec {
             "v6" => SocketAddr::V6(v6_of(peer + 1)),
             "other" => SocketAddr::new(IpAddr::V4(Ipv4Addr::new(10, 7, 7, 7)), 7777),
+            "lo6" => SocketAddr::V6(SocketAddrV6::new(Ipv6Addr::LOCALHOST, 9004, 0, 0)),      // ::1 is IPv4-compatible in form (::/96) but no IPv4 address
             "other6" => SocketAddr::V6(SocketAddrV6::new(Ipv6Addr::new(0x2001, 0xdb8, 7, 0, 0, 0, 0, 7), 7777, 0, 0)),
             "z" => SocketAddr::new(IpAddr::V4(*v4_of(peer + 1).ip()), 0),
             _ => SocketAddr::V4(v4_of(peer + 1)),
@@ -255,6 +256,7 @@ impl World {
             "[2001:db8:77::7]:7006" => return "X6".into(),
             "[2001:db8:88::8]:8006" => return "Y6".into(),
             "10.0.0.100:9000" => return "L4".into(),
+            "[::1]:9004" => return "lo6".into(),
             _ => {}
         }
         for k in 1..=NPEERS {
@@ -555,8 +557,10 @@ impl World {
                     Some(t) => {
                         // "empty": the application answers with an empty payload (still the application's answer, exactly one TALKRESP)
                         let payload: Vec<u8> = if op.get("empty").and_then(|x| x.as_bool()) == Some(true) { vec![] } else { b"answer".to_vec() };
-                        let r = util::guarded(move || if o == "talk_respond" { format!("{:?}", t.respond(payload)) } else { drop(t); "dropped".to_string() });
-                        info.insert("ret".into(), json!(match r { Ok(s) => s, Err(p) => format!("panic: {p}") }));
+                        // "unwind": the application task that holds the request object fails (panics); the object is dropped while unwinding
+                        let unwind = op.get("unwind").and_then(|x| x.as_bool()) == Some(true);
+                        let r = util::guarded(move || if o == "talk_respond" { format!("{:?}", t.respond(payload)) } else if unwind { let _held = t; panic!("application task fails") } else { drop(t); "dropped".to_string() });
+                        info.insert("ret".into(), json!(match r { Ok(s) => s, Err(p) => if unwind && p.contains("application task fails") { "dropped".to_string() } else { format!("panic: {p}") } }));
                     }
                     None => {
                         info.insert("unresolved".into(), json!("no such talk request held"));
